@@ -40,7 +40,7 @@ class P(Prop):
         (M, "TV.C07.path_is_walk", "any path returned by shortest_path(s,t,cut): node list from s to t, consecutive nodes joined by the recorded edge in a permitted direction; geometry = chain of those edges' polylines along the travel, junctions once, ending at pos t; weights sum to the label of t"),
         (M, "TV.C07.path_optimal", "for shortest_path(s,t) the recorded edges' weights sum to the true shortest distance"),
         (M, "TV.C07.path_optimal_cut", "with a cut-off not below the true distance the returned path still realises the true distance"),
-        (M, "TV.C07.geometry_chained", "if every edge polyline runs from its source's to its target's position, the returned geometry starts at pos s and ends at pos t"),
+        (M, "TV.C07.geometry_chained", "if every edge polyline runs from its source's to its target's position, the returned geometry = pos s followed by the used edges' polylines, each oriented along the travel and without its first vertex (junctions once); starts at pos s, ends at pos t"),
         (M, "TV.C07.unreachable_none", "no permitted walk => None; t = s => None (as coded)"),
         (M, "TV.C07.reachable_path", "a reachable target other than the source always gets a path"),
         (M, "TV.C07.never_diverges", "the loop `while node.antecedent != \"\"` always terminates (within n+1 iterations) on the flags left by the forward pass"),
